@@ -405,4 +405,3 @@ func defaultAtUse(w *World, cfgT types.Type, path, want string) bool {
 	}
 	return reads > 0 && ok && tested && merged
 }
-
